@@ -20,9 +20,21 @@ patch = os.path.join(src, "patch.diff")
 demo = open(os.path.join(src, "demo.rs")).read()
 head = "\n".join(demo.splitlines()[:25])
 feats = ""
-mm = re.search(r"--features[ =]([A-Za-z0-9_,-]+)", head)
-if mm:
+# prefer an explicit `cargo test ... --features X` line; "features: none / default" means none
+line = re.search(r"cargo test[^\n]*", head)
+if re.search(r"(?i)(cargo )?features?\s*(needed|required)?\s*[:=-]+\s*(none|default|no )", head) or re.search(r"(?i)\b(no|without any) (cargo )?features?( are)? (needed|required)", head) or re.search(r"(?i)needs no (cargo )?features", head):
+    feats = ""
+elif line and "--features" in line.group(0):
+    mm = re.search(r"--features[ =]([A-Za-z0-9_,-]+)", line.group(0))
     feats = "--features " + mm.group(1)
+    if "--release" in line.group(0):
+        feats += " --release"
+else:
+    mm = re.search(r"--features[ =]([A-Za-z0-9_,-]+)", head)
+    if mm:
+        feats = "--features " + mm.group(1)
+    if re.search(r"cargo test[^\n]*--release", head):
+        feats += " --release"
 if "SEED_FEATURES" in os.environ:
     feats = os.environ["SEED_FEATURES"]
 def suite():
